@@ -111,6 +111,15 @@ type c04xCtx struct {
 	caseNo     *int
 	doLogin    func(id string)
 	doCallback func(id string, keepPending bool) *issuedCode
+	// round 4c: a presented verifier that IS the SHA-256 challenge of a known verifier v is written "S256(v)" on the line (c04ro.go)
+	verifierSym map[string]string
+}
+
+func (x *c04xCtx) symV(v string) string {
+	if s, ok := x.verifierSym[v]; ok {
+		return s
+	}
+	return v
 }
 
 // pkce describes the PKCE part of an authorization request: what is sent, and how the model sees it
@@ -264,7 +273,7 @@ func (x *c04xCtx) exchange(codeStr, codeLabel, redirect, verifier string, caller
 	if verifier != "" {
 		form.Set("code_verifier", verifier)
 	}
-	l := hx.NewLine(x.prop).I("case", int64(*x.caseNo)).S("op", "exchange").S("code", codeLabel).S("redirect", redirect).S("verifier", verifier)
+	l := hx.NewLine(x.prop).I("case", int64(*x.caseNo)).S("op", "exchange").S("code", codeLabel).S("redirect", redirect).S("verifier", x.symV(verifier))
 	auth := x.auth(l, "", caller)
 	before := x.bed.Store.RefreshTokens()
 	if failAt > 0 {
